@@ -2915,6 +2915,10 @@ impl LineBuf {
 				let Some(line_no) = self.eval_line_addr(addr) else {
 					return MotionKind::Null
 				};
+				if line_no > self.last_line_number() {
+					// No such line. A line number that has no bounds makes every consumer do nothing
+					return MotionKind::Line(usize::MAX)
+				}
 				MotionKind::Line(line_no)
 			}
 			MotionCmd(_, Motion::LineRange(start_addr, end_addr)) => {
@@ -2926,7 +2930,12 @@ impl LineBuf {
 				};
 				// A backwards range addresses the same lines
 				let (start_line_no, end_line_no) = ordered(start_line_no, end_line_no);
-				MotionKind::LineRange(start_line_no, end_line_no)
+				// Clip the range to the lines that exist
+				let last_line_no = self.last_line_number();
+				if start_line_no > last_line_no {
+					return MotionKind::LineRange(usize::MAX, usize::MAX)
+				}
+				MotionKind::LineRange(start_line_no, end_line_no.min(last_line_no))
 			}
 			MotionCmd(_,Motion::RepeatMotion) | // These two were already handled in exec.rs
 			MotionCmd(_,Motion::RepeatMotionRev) |
